@@ -107,6 +107,12 @@ func (e *integEngine) checkC12(x *integExpect) {
 		}
 		rt := e.resultTask(t.Name)
 		if rt.Skipped {
+			// skipped means: its condition was evaluated and said no - not: the evaluation was cut short
+			for _, r := range e.execsOf(t.Name) {
+				if r.Info.Block == "cond" && (r.CtxDoneSeq >= 0 || r.Result != fmt.Sprint(planExit(e.w.PlanFor(r.Info.ID, e.pl.identity(r.Info.GID))))) {
+					c.Violate("C12", "skipped-by-interrupted-condition", "task %s counts as skipped (and its run as a success) although its condition command %s did not finish by itself: it was interrupted by the cancellation (result %s)", t.Name, r.Info.Key, r.Result)
+				}
+			}
 			continue
 		}
 		want := x.task[t.Name]
